@@ -54,22 +54,22 @@ func (c e2Cfg) String() string {
 	return fmt.Sprintf("active=%v threshold=%d suppression=%v interval=%v T6=%v", c.Active, c.Threshold, c.Suppress, c.interval(), c.t6())
 }
 
-// e2Case: Script is a string over {A,I,S,L,B,D,W,R}, one letter per round.
+// e2Case: Script is a string over {A,I,S,L,B,D,W,R,F}, one letter per round.
 type e2Case struct {
 	Cfg    e2Cfg  `json:"cfg"`
 	Script string `json:"script"`
 }
 
 const (
-	alphabet     = "AISLBDWR" // full alphabet, simplest first
-	coreAlphabet = "AIBDWR"   // without the slow / late answers
+	alphabet     = "AISLBDWRF" // full alphabet, simplest first
+	coreAlphabet = "AIBDWRF"   // without the slow / late answers
 )
 
 // ---- reference timeline ----
 
 type planStep struct {
 	At    time.Duration
-	Kind  byte // 'a' answer the probe sent at Probe (in time or late), 'd' peer data frame, 'w' application W send, 'r' reply to all outstanding
+	Kind  byte // 'a' answer the probe sent at Probe (in time or late), 'd' peer data frame, 'w' application W send, 'r' reply to all outstanding, 'f' application W=0 send
 	Probe time.Duration
 }
 
@@ -121,6 +121,12 @@ func simulate(cfg e2Cfg, script string, tSel time.Duration, tail bool) timeline 
 			tl.LibData = append(tl.LibData, F-delta)
 			lastAct = F - delta
 			outstanding++
+		case 'F':
+			// a fire-and-forget send of the application: traffic that defers the next probe under
+			// suppression, but a frame WE wrote is no sign of life of the peer
+			tl.Steps = append(tl.Steps, planStep{At: F - delta, Kind: 'f'})
+			tl.LibData = append(tl.LibData, F-delta)
+			lastAct = F - delta
 		case 'R':
 			tl.Steps = append(tl.Steps, planStep{At: F - delta, Kind: 'r'})
 			if outstanding > 0 {
@@ -353,6 +359,12 @@ func runE2(t *testing.T, ec e2Case) (obs observation, fails []failure, harness s
 				wsends = append(wsends, &wsend{started: w.Now()})
 				calls = append(calls, w.Go(func() {
 					_, _ = w.C.SendDataMessage(context.Background(), 1, 1, true, secs2.NewEmptyItem())
+				}))
+				w.Settle()
+				readAll()
+			case 'f':
+				calls = append(calls, w.Go(func() {
+					_, _ = w.C.SendDataMessage(context.Background(), 5, 1, false, secs2.NewEmptyItem())
 				}))
 				w.Settle()
 				readAll()
